@@ -197,6 +197,11 @@ func implAnswer(line string) (resp string) {
 			return "R class=badrequest"
 		}
 		return implRun(fields)
+	case "cli":
+		if len(fields) != 5 {
+			return "R class=badrequest"
+		}
+		return implCli(fields)
 	case "parse", "pexpr":
 		src, err := unhx(fields[1])
 		if err != nil {
